@@ -24,6 +24,8 @@ def run(ctx):
     ctx.rule('PETE-SCENARIO', 'lunar / sexagenary containers evaluated on scenario calendars (numeric layer replaced by oracles)')
 
     # ---- civil nesting: year -> halves, seasons, months; closed system over all 12 months
+    cm = CalModel(I, {}, [])
+
     def nest(y):
         sy = I.call('SolarYear::from_year', [y])
         halves = t.m(sy, 'get_half_years')
@@ -35,17 +37,21 @@ def run(ctx):
                'half_months': [[py(t.m(m, 'get_month')) for m in t.m(h, 'get_months')] for h in halves],
                'half_seasons': [[py(t.m(s, 'get_index')) for s in t.m(h, 'get_seasons')] for h in halves],
                'season_months': [[py(t.m(m, 'get_month')) for m in t.m(s, 'get_months')] for s in seasons],
-               'month_season': [py(t.m(t.m(m, 'get_season'), 'get_index')) for m in months]}
+               'month_season': [py(t.m(t.m(m, 'get_season'), 'get_index')) for m in months],
+               # child -> parent accessors name the container the child was listed in
+               'parents': [py(t.m(t.m(h, 'get_solar_year'), 'get_year')) for h in halves] + [py(t.m(t.m(s, 'get_solar_year'), 'get_year')) for s in seasons]
+                          + [py(t.m(t.m(m, 'get_solar_year'), 'get_year')) for m in months],
+               'day_parent': [(py(t.m(sm_, 'get_year')), py(t.m(sm_, 'get_month'))) for sm_ in [t.m(t.m(m, 'get_days')[0], 'get_solar_month') for m in months]]}
         return out
 
     def nest_orc(y):
         return {'halves': [(y, 0), (y, 1)], 'seasons': [(y, i) for i in range(4)], 'months': [(y, m) for m in range(1, 13)],
                 'half_months': [list(range(1, 7)), list(range(7, 13))], 'half_seasons': [[0, 1], [2, 3]],
-                'season_months': [[3 * s + 1, 3 * s + 2, 3 * s + 3] for s in range(4)], 'month_season': [(m - 1) // 3 for m in range(1, 13)]}
+                'season_months': [[3 * s + 1, 3 * s + 2, 3 * s + 3] for s in range(4)], 'month_season': [(m - 1) // 3 for m in range(1, 13)],
+                'parents': [y] * 18, 'day_parent': [(y, m) for m in range(1, 13)]}
     table(ctx, R, 'SolarYear:nesting', [1, 1582, 2000, 2024, 9999], nest, nest_orc, 'a civil year lists 2 half-years, 4 seasons, 12 months that nest correctly', str, fn_site(p, 'SolarYear::get_months'))
 
     # ---- month -> exactly the dates that exist, in order; count = day count
-    cm = CalModel(I, {}, [])
     months = [(y, m) for y in (1, 4, 1500, 1582, 1600, 1900, 2000, 2023, 2024, 9999) for m in range(1, 13)]
 
     def mdays(x):
